@@ -11,7 +11,7 @@ import (
 	"github.com/hashicorp/go-bexpr/grammar"
 )
 
-var tagKeys = []string{"bexpr", "alt", "pointer", "json"}
+var tagKeys = []string{"bexpr", "alt", "pointer", "json", "Filter", "filter"}
 
 var mops = []string{"OpEq", "OpNeq", "OpIn", "OpNotIn", "OpIsEmpty", "OpIsNotEmpty", "OpMatches", "OpNotMatches"}
 
